@@ -22,10 +22,26 @@ Problem = Tuple[str, str]
 
 
 def term(v: Any) -> Any:
+    if type(v) in (int, float) and v == v and v not in (float("inf"), float("-inf")):
+        return Fraction(v)  # concrete replay / sampled shapes: plain exact numbers, no solver terms
     l = SymNum.lift(v)
     if l is None:
         raise Unsupported(f"coordinate of type {type(v).__name__}")
     return l[0]
+
+
+def AND(*xs: Any) -> Any:
+    xs = tuple(x for a in xs for x in (a if isinstance(a, (list, tuple)) else (a,)))
+    if all(isinstance(x, bool) for x in xs):
+        return all(xs)
+    return z3.And([x if not isinstance(x, bool) else z3.BoolVal(x) for x in xs])
+
+
+def OR(*xs: Any) -> Any:
+    xs = tuple(x for a in xs for x in (a if isinstance(a, (list, tuple)) else (a,)))
+    if all(isinstance(x, bool) for x in xs):
+        return any(xs)
+    return z3.Or([x if not isinstance(x, bool) else z3.BoolVal(x) for x in xs])
 
 
 def depth_of(i: int) -> int:
@@ -60,7 +76,7 @@ def inorder_rank(shape: Shape) -> Dict[int, int]:
     return out
 
 
-def layout_check(shape: Shape, flavour: str, ctx: Optional[Ctx], ux: Any, uy: Any, repeats: int) -> List[Problem]:
+def layout_check(shape: Shape, flavour: str, ctx: Optional[Ctx], ux: Any, uy: Any, repeats: int, light: bool = False) -> List[Problem]:
     """All invariants for one shape.  ux/uy: SymNum (symbolic) or numbers (replay)."""
     problems: List[Problem] = []
 
@@ -68,7 +84,7 @@ def layout_check(shape: Shape, flavour: str, ctx: Optional[Ctx], ux: Any, uy: An
         if isinstance(cond, bool):
             return cond
         if ctx is None:
-            return bool(z3.is_true(z3.simplify(cond)))
+            return bool(z3.is_true(z3.simplify(cond))) if not isinstance(cond, bool) else cond
         r, _ = ctx.valid(cond)
         return r != "cex"
 
@@ -76,7 +92,8 @@ def layout_check(shape: Shape, flavour: str, ctx: Optional[Ctx], ux: Any, uy: An
     try:
         # history: an unrelated, larger tree was laid out earlier in the same process (bounds and coordinates of the
         # tree under test must not depend on it)
-        TreeLayout().layout(build_plain((1, 2, 3, 4, 5, 6, 7, 8, 15))[1], 3.0, 2.0)
+        if not light:
+            TreeLayout().layout(build_plain((1, 2, 3, 4, 5, 6, 7, 8, 15))[1], 3.0, 2.0)
         m = TreeLayout().layout(nodes[1], ux, uy)
     except Exception as e:
         return [("layout-raised", f"layout raised {type(e).__name__}: {str(e)[:80]}")]
@@ -111,11 +128,11 @@ def layout_check(shape: Shape, flavour: str, ctx: Optional[Ctx], ux: Any, uy: An
         for name, coords, pick in (("minX", X, "min"), ("maxX", X, "max"), ("minY", Y, "min"), ("maxY", Y, "max")):
             got = term(getattr(m, name))
             vals = list(coords.values())
-            is_bound = z3.And([got <= v if pick == "min" else got >= v for v in vals])
-            attained = z3.Or([got == v for v in vals])
-            if not holds(z3.And(is_bound, attained)):
+            is_bound = AND([got <= v if pick == "min" else got >= v for v in vals])
+            attained = OR([got == v for v in vals])
+            if not holds(AND(is_bound, attained)):
                 problems.append(("bounds", f"{name} is not the true {pick}imum of the assigned coordinates"))
-        if not holds(z3.And(term(m.width) == term(m.maxX) - term(m.minX), term(m.height) == term(m.maxY) - term(m.minY))):
+        if not holds(AND(term(m.width) == term(m.maxX) - term(m.minX), term(m.height) == term(m.maxY) - term(m.minY))):
             problems.append(("bounds", "width/height differ from max - min"))
     except Unsupported as e:
         problems.append(("bounds", str(e)))
@@ -128,16 +145,30 @@ def layout_check(shape: Shape, flavour: str, ctx: Optional[Ctx], ux: Any, uy: An
         except Exception as e:
             problems.append(("repeat", f"layout #{k + 2} of the same nodes raised {type(e).__name__}"))
             break
-        bad = [i for i in shape if not holds(z3.And(X2[i] == X[i], Y2[i] == Y[i]))]
+        bad = [i for i in shape if not holds(AND(X2[i] == X[i], Y2[i] == Y[i]))]
         if bad:
             problems.append(("repeat", f"layout #{k + 2} of the same nodes moved nodes {bad}"))
+            break
+    # a proper subtree laid out on its own first, then the whole tree: same coordinates as a fresh layout
+    inner = [i for i in shape if i > 1 and (2 * i in s or 2 * i + 1 in s)]
+    for sub in ([] if light else inner[:1] + inner[-1:]):
+        hn = build_plain(shape) if flavour == "plain" else build_math(shape)
+        try:
+            TreeLayout().layout(hn[sub], ux, uy)
+            TreeLayout().layout(hn[1], ux, uy)
+            bad = [i for i in shape if not holds(AND(term(hn[i].x) == X[i], term(hn[i].y) == Y[i]))]
+            if bad:
+                problems.append(("repeat", f"laying out the subtree at node {sub} first and then the whole tree moves nodes {bad}"))
+                break
+        except Exception as e:
+            problems.append(("repeat", f"layout after a sub-layout raised {type(e).__name__}"))
             break
     # mirrored tree -> mirrored coordinates
     ms = mirror(shape)
     mnodes = build_plain(ms) if flavour == "plain" else build_math(ms)
     try:
         TreeLayout().layout(mnodes[1], ux, uy)
-        bad = [i for i in shape if not holds(z3.And(term(mnodes[mirror_index(i)].x) == -X[i], term(mnodes[mirror_index(i)].y) == Y[i]))]
+        bad = [i for i in shape if not holds(AND(term(mnodes[mirror_index(i)].x) == -X[i], term(mnodes[mirror_index(i)].y) == Y[i]))]
         if bad:
             problems.append(("mirror", f"the mirrored tree is not laid out as the mirror image (nodes {bad})"))
     except Exception as e:
@@ -152,8 +183,50 @@ def layout_check(shape: Shape, flavour: str, ctx: Optional[Ctx], ux: Any, uy: An
     return out
 
 
-def worker(item: Tuple[Shape, str]) -> Dict[str, Any]:
+def insertion_shape(rnd: random.Random, n: int) -> Shape:
+    """A random binary tree with n nodes grown by random insertion walks (the shape distribution of random search trees:
+    long one-child chains next to bushy parts, which is where contour threading matters)."""
+    s = {1}
+    while len(s) < n:
+        i = 1
+        while True:
+            c = 2 * i + rnd.randint(0, 1)
+            if c in s:
+                i = c
+            else:
+                s.add(c)
+                break
+    return tuple(sorted(s))
+
+
+BATCH = 1000
+
+
+def batch_worker(batch_seed: int) -> Dict[str, Any]:
+    """BATCH sampled shapes with 14..30 nodes, fixed multipliers, no solver."""
+    rnd = random.Random(batch_seed)
+    total: Optional[Dict[str, Any]] = None
+    for _ in range(BATCH):
+        part = sample_worker(insertion_shape(rnd, rnd.randint(14, 30)))
+        if total is None:
+            total = part
+        else:
+            total["stats"].paths += 1
+            total["cases"] += 1
+            total["nontrivial"] += 1
+            total["queries"] += 1
+            total["proved"] += part["proved"]
+            total["violations"].extend(part["violations"][:1] if len(total["violations"]) < 5 else [])
+    assert total is not None
+    return total
+
+
+def worker(item: Tuple[Any, str]) -> Dict[str, Any]:
     shape, flavour = item
+    if flavour == "sample":
+        return sample_worker(shape)
+    if flavour == "batch":
+        return batch_worker(shape)
     st = Stats()
     part: Dict[str, Any] = {"stats": st, "cases": 1, "nontrivial": 1, "proved": 0, "queries": 0, "inconclusive": 0,
                             "violations": [], "samples": [], "reach": {}, "inconclusive_samples": [],
@@ -202,6 +275,32 @@ def worker(item: Tuple[Shape, str]) -> Dict[str, Any]:
     for v in part["violations"]:
         uniq.setdefault(v.ident(), v)
     part["violations"] = list(uniq.values())
+    return part
+
+
+def sample_worker(shape: Shape) -> Dict[str, Any]:
+    """Large sampled shapes: fixed multipliers, no solver (the solver-quantified multipliers are exercised on the
+    enumerated families); finds shape-dependent contour faults that need 14+ nodes."""
+    st = Stats()
+    st.paths = 1
+    part: Dict[str, Any] = {"stats": st, "cases": 1, "nontrivial": 1, "proved": 0, "queries": 1, "inconclusive": 0,
+                            "violations": [], "samples": [], "reach": {"sample": 1}, "inconclusive_samples": [],
+                            "engine_mismatch": 0, "mismatch_samples": [], "validated": 0}
+    probs: List[Problem] = []
+    used = (1.0, 1.0)
+    for uxv, uyv in ((1.0, 1.0), (2.5, 0.5)):
+        probs = layout_check(shape, "plain", None, uxv, uyv, repeats=0, light=True)
+        used = (uxv, uyv)
+        if probs:
+            break
+    if not probs:
+        part["proved"] = 1
+        return part
+    for lab, msg in probs:
+        part["violations"].append(Violation("C18", lab, {"fault": lab, "shape": shape_text(shape), "flavour": "plain"},
+                                            f"shape {shape_text(shape)}: {msg}",
+                                            {"kind": "layout", "shape": list(shape), "flavour": "plain", "ux": used[0], "uy": used[1],
+                                             "observed": msg}))
     return part
 
 
@@ -266,11 +365,16 @@ def run(tier: str) -> int:
         "over two children, same-level nodes in order and >= ux apart, returned bounds = true bounding box, second and third "
         "layout of the same nodes give the same coordinates, the mirrored shape gives mirrored coordinates.")
     rep.assumptions = ["shapes deeper than the bound are outside the claim"]
-    deep = deep_sample(1200 if tier == "quick" else 25000, random.Random(seed() + 18))
-    rep.bounds["deep_sample"] = f"{len(deep)} seeded random shapes with 9..22 nodes and up to 7 levels (sampled, not exhaustive)"
-    items = [(s, "plain") for s in shapes + extra + deep]
+    rnd = random.Random(seed() + 18)
+    deep = deep_sample(600 if tier == "quick" else 5000, rnd)
+    nbatch = 64 if tier == "quick" else 640
+    rep.bounds["deep_sample"] = (f"{len(deep)} seeded random shapes with 9..22 nodes and up to 7 levels with symbolic multipliers, and "
+                                 f"{nbatch * BATCH} random-insertion shapes with 14..30 nodes with the multipliers fixed at (1, 1) / (2.5, 0.5) "
+                                 "and no solver (sampled, not exhaustive: contour faults were seen to need 14+ nodes and to hit about one "
+                                 "shape in 5000)")
+    items = [(s, "plain") for s in shapes + extra + deep] + [(seed() * 100003 + 7919 * b, "batch") for b in range(nbatch)]
     if tier != "quick":
         items += [(s, "math") for s in shapes]
     random.Random(seed()).shuffle(items)
     collect(rep, pmap(worker, items, budget_s=400 if tier == "quick" else 720, chunk=8))
-    return rep.finish(required_reach=["plain"])
+    return rep.finish(required_reach=["plain", "sample"])
